@@ -329,6 +329,22 @@ def main(argv):
         ops = gen_history(rng, cfg, pick(rng, [4, 8, 12, 20]))
         try:
             fs = run_history(cfg, ops, props, known)
+            if prop == "C01" and not fs and rng.random() < 0.5:
+                # boundary exploration of the device's maximum sequence duration: replay the same history with the limit
+                # placed at / just below each instruction boundary observed without a limit
+                ends = checks.boundaries(cfg, ops, build_device, apply_op, Register, Sequence)
+                for lim in rng.sample(sorted(ends), min(len(ends), 6)):
+                    for delta in (0, -1, -2, -4, -6):
+                        if lim + delta <= 0:
+                            continue
+                        cfg2 = dict(cfg, max_sequence_duration=lim + delta)
+                        fs2 = run_history(cfg2, ops, props, known)
+                        evals += len(ops)
+                        if fs2:
+                            cfg, fs = cfg2, fs2
+                            break
+                    if fs:
+                        break
         except Exception as ex:
             import traceback
             fs = [dict(prop=prop, clause="harness-error " + repr(ex)[:200] + traceback.format_exc()[-600:], step=-1, op=None, known="harness")]
